@@ -14,7 +14,7 @@ ANCHORS = ['numdifftools.extrapolation:EpsAlg.__call__', 'numdifftools.extrapola
            'numdifftools.extrapolation:Dea._update_res3la']
 MIN_COUNTERS = dict(quick={'epsalg_entries_asserted': 2700, 'epsalg_complex_entries_asserted': 600, 'epsalg_recovery_asserted': 300,
                            'dea_calls_total_asserted': 50000, 'dea_floor_asserted': 50000,
-                           'dea_first_three_asserted': 1500, 'dea_table_membership_asserted': 3000, 'dea_table_membership_after_guards_or_cap_asserted': 3000, 'dea_branch:table_capped_at_limexp': 100,
+                           'dea_first_three_asserted': 1500, 'dea_table_membership_asserted': 3000, 'dea_table_membership_after_guards_or_cap_asserted': 3000, 'dea_branch:table_capped_at_limexp': 100, 'dea_finite_for_three_terms_near_top_of_range_asserted': 150,
                            'dea_branch:all_converged': 100, 'dea_branch:partial_convergence_shrinks_table': 100},
                     thorough={'epsalg_entries_asserted': 100000, 'dea_calls_total_asserted': 2000000})
 RULE = ('Two further families: extreme (subnormal terms, units of 1e+-20..140, values up to 1e100) and integers (terms as Python / numpy integers). ' 
@@ -125,8 +125,8 @@ def make_sequence(case):
         meta = dict(raw=raw)
     elif fam == 'extreme':
         # the ends of the binary64 range: finite input all the same
-        mode = int(rng.integers(0, 4))
-        meta = dict(mode=mode, epsalg=mode >= 2)
+        mode = int(rng.integers(0, 5))
+        meta = dict(mode=mode, epsalg=mode in (2, 3))
         if mode == 0:      # a * q**n with small |q|: the terms run through the subnormals down to exactly 0.0
             q = float(10.0 ** rng.uniform(-8, -1.3) * rng.choice([-1.0, 1.0]))
             a = float(rng.normal() * 10.0 ** rng.uniform(-5, 5)) or 1.0
@@ -141,6 +141,17 @@ def make_sequence(case):
             q = [float(c) for c in np.round(rng.choice(np.arange(0.1, 0.9, 0.1), size=k, replace=False) * rng.choice([-1.0, 1.0], size=k), 2)]
             seq = [float((L + sum(ai * qi ** n for ai, qi in zip(a, q))) * unit) for n in range(N)]
             meta.update(unit=unit)
+        elif mode == 4:    # three terms near the top of the range (1e300 .. 8e307), of one sign: a nearly arithmetic progression
+            #                (the reciprocal of the second difference is subnormal or overflows), or three random values
+            unit = 10.0 ** rng.uniform(300, 307.9)
+            if rng.random() < 0.7:
+                a0, dd = rng.uniform(0.1, 1), rng.uniform(0.05, 0.4) * rng.choice([-1.0, 1.0])
+                dl = 10.0 ** rng.uniform(-6, -2) * rng.choice([-1.0, 1.0])
+                seq = [a0, a0 + dd, a0 + 2 * dd * (1 + dl)]
+            else:
+                seq = list(rng.uniform(0.1, 1, size=3))
+            sg = float(rng.choice([-1.0, 1.0]))
+            seq = [sg * float(v) * unit for v in seq]
         else:              # random large values (all <= 1e100 in magnitude, the cap the finiteness clause is asserted under)
             scale = 10.0 ** rng.uniform(60, 99)
             seq = [float(v) for v in np.clip(rng.normal(size=N), -8, 8) * scale]
@@ -469,6 +480,13 @@ def run_case(case, ctx):
             if i + 1 < 2 * (limexp // 2) + 1:
                 ctx.reject('dea_table_capped_before_limexp_terms', observed=i + 1, expected=2 * (limexp // 2) + 1,
                            detail=dict(limexp=limexp, branches=sorted(_hist['branches'])))
+                return
+        if meta.get('mode') == 4:
+            # beyond the cap of the general finiteness clause: three terms of one sign below 8e307 still give a finite result
+            # (the estimate, a multiple of the differences, may overflow there and is not judged)
+            ctx.count('dea_finite_for_three_terms_near_top_of_range_asserted')
+            if not math.isfinite(r):
+                ctx.reject('dea_nonfinite', observed=[r, e], detail=dict(at_term=i + 1, limexp=limexp, seq=seq[:i + 1]), near_top_of_range=True)
                 return
         if finite_in and not (math.isfinite(r) and not math.isnan(e)):
             ctx.reject('dea_nonfinite', observed=[r, e], detail=dict(at_term=i + 1, limexp=limexp))
